@@ -277,6 +277,9 @@ class Parser:
         if type(tok) is defs.ParagraphToken:
             return scanner.Buffer([defs.VoidToken(tok.pos)])
         if end == '}' and tok.txt != '{':
+            if utils.is_error_mark(tok, self.parms):
+                # a pushed back error mark must not vanish as argument
+                return scanner.Buffer([defs.VoidToken(tok.pos)])
             # consume single token
             buf.next()
             return scanner.Buffer([tok])
